@@ -1,7 +1,7 @@
 #!/usr/bin/env python3
 """tools/seedrun.py <seed dir with patch.diff> [PROP ...] : apply a seeded change to /repo, run checks, undo it."""
 import json, os, subprocess, sys, time
-seed = sys.argv[1]
+seed = os.path.abspath(sys.argv[1])
 props = sys.argv[2:] or [c["property_id"] for c in json.load(open("/verif/MANIFEST.json"))["checks"]]
 patch = os.path.join(seed, "patch.diff")
 st = subprocess.run(["git", "-C", "/repo", "status", "--porcelain", "--untracked-files=no"], capture_output=True, text=True).stdout.strip()
